@@ -204,7 +204,7 @@ func gmatch(t *rt.Thread, c *rt.GoCont) (rt.Cont, error) {
 func gsub(t *rt.Thread, c *rt.GoCont) (rt.Cont, error) {
 	var (
 		s, ptn string
-		n      int64 = -1
+		n      int64
 		repl   rt.Value
 	)
 	err := c.CheckNArgs(3)
@@ -214,8 +214,13 @@ func gsub(t *rt.Thread, c *rt.GoCont) (rt.Cont, error) {
 	if err == nil {
 		ptn, err = c.StringArg(1)
 	}
-	if err == nil && c.NArgs() >= 4 {
-		n, err = c.IntArg(3)
+	if err == nil {
+		// By default there is no limit to the number of substitutions (there
+		// cannot be more than len(s) + 1 matches).
+		n = int64(len(s)) + 1
+		if c.NArgs() >= 4 {
+			n, err = c.IntArg(3)
+		}
 	}
 	if err != nil {
 		return nil, err
@@ -326,7 +331,7 @@ func gsub(t *rt.Thread, c *rt.GoCont) (rt.Cont, error) {
 	// copying the string until one substitution has actually taken place.  This
 	// is achieved by keeping the variable sj the same until bytes are written
 	// in the string builder.
-	for ; matchCount != n; matchCount++ {
+	for ; matchCount < n; matchCount++ {
 		if anchored && matchCount > 0 {
 			// An anchored pattern can only match at the start of the subject.
 			break
